@@ -60,6 +60,14 @@ func classifyExits(loop map[*ssa.BasicBlock]bool) []loopExit {
 					if _, ok := cv.X.(*ssa.Phi); ok {
 						e.kind = "exhausted" // counted loop: i < bound with i the induction variable
 					}
+					if inc, ok := cv.X.(*ssa.BinOp); ok && inc.Op == token.ADD {
+						// `for i := range n` is built as a rotated loop: the latch tests i+1 < n
+						if _, isPhi := inc.X.(*ssa.Phi); isPhi {
+							if k, isC := constInt(inc.Y); isC && k == 1 {
+								e.kind = "exhausted"
+							}
+						}
+					}
 				}
 				// linked-list walk: for e := l.Front(); e != nil; e = ...
 				if (cv.Op == token.NEQ && si == 1 || cv.Op == token.EQL && si == 0) && (isNilConst(cv.X) || isNilConst(cv.Y)) {
